@@ -31,7 +31,7 @@ ASSUMPTIONS = [
     'failure belong to the same request and must stay on the same node.',
     'A transport exception counts as a failed request.',
 ]
-EXPECTED_PROBES = ['aborted_call_then_request', 'application_touched_client_inputs', 'pool_given_as_bare_string', 'request_from_worker_thread', 'duplicate_pool_entry', 'two_clients_one_uri_list', 'error_then_request', 'exception_then_request', 'transient_exhausted_then_request', 'wrapped_around']
+EXPECTED_PROBES = ['two_requests_overlapped_and_finished_out_of_order', 'member_node_probed_directly', 'aborted_call_then_request', 'application_touched_client_inputs', 'pool_given_as_bare_string', 'request_from_worker_thread', 'duplicate_pool_entry', 'two_clients_one_uri_list', 'error_then_request', 'exception_then_request', 'transient_exhausted_then_request', 'wrapped_around']
 
 OUTCOMES = ['ok', 's404', 's401', 's400', 'perm500', 'trans_ok', 'trans6', 'exc', 'exc_timeout', 'exc_chunked', 'exc_connect_timeout', 'abort_interrupt', 'abort_cancelled']
 VIAS = ['get', 'post', 'put', 'delete', 'request', 'shell.header', 'shell.counter', 'shell.inject',
@@ -74,7 +74,11 @@ def gen(seed, tier):
         if rng.random() < 0.04:
             # between two requests the application touches things the client was built from / exposes:
             # it edits the list it passed to the constructor, or re-assigns the public `headers` attribute (a refreshed token)
-            st['touch'] = rng.choice(['append_uri', 'remove_uri', 'set_headers'])
+            st['touch'] = rng.choice(['append_uri', 'remove_uri', 'set_headers', 'member_probe', 'member_probe'])
+        if rng.random() < 0.03 and not st.get('thread') and o in ('ok', 's404', 'perm500', 'exc'):
+            # this request is still in flight (a slow node) when the application issues the next one from another thread; the slow one
+            # finishes last.  Neither of the two is judged; every later request has a well-defined index again and is judged.
+            st['overlap_next'] = True
         if two_clients and rng.random() < 0.4:
             st['client'] = 1  # a second RpcMultiNode built from the very same list object (e.g. two `using('<net>.pool')` clients)
         if o == 'trans_ok':
@@ -96,9 +100,17 @@ def execute(scn, want_log=False):
     uris = [f'http://node{h}.sim:8732' for h in scn.get('hosts', list(range(scn['n'])))]
     cur = {'outcome': 'ok', 'left': 0, 'k': 0}
 
+    park = {'armed': False, 'started': None, 'release': None}
+
     def handler(req):
         o = cur['outcome']
         cur['k'] += 1
+        if park['armed']:
+            # the node is slow: the answer is held back until the harness releases it (another request runs meanwhile)
+            park['armed'] = False
+            park['started'].set()
+            if not park['release'].wait(60):
+                raise core.HarnessError('parked request was never released')
         if o == 'ok':
             return core.Reply.js({'ok': cur['k']})
         if o == 's404':
@@ -147,6 +159,7 @@ def execute(scn, want_log=False):
         shells = {}
         counts = {0: 0, 1: 0}
         touched = [False]
+        inflight = None
         for gi, st in enumerate(scn['steps']):
             cid = st.get('client', 0)
             if cid not in clients and touched[0]:
@@ -169,7 +182,14 @@ def execute(scn, want_log=False):
                     shared_list.pop()
                 elif st['touch'] == 'set_headers':
                     node.headers = {'Authorization': f'Bearer t{gi}'}
-                touched[0] = touched[0] or st['touch'] != 'set_headers'
+                elif st['touch'] == 'member_probe':
+                    # a health probe sent straight to one member of the pool (the public `nodes` list): not a request of the pool
+                    member = node.nodes[gi % len(node.nodes)]
+                    cur['outcome'], cur['left'] = 'ok', 0
+                    sim.ev('member_probe', member=gi % len(node.nodes))
+                    member.get('version')
+                    bump('member_node_probed_directly')
+                touched[0] = touched[0] or st['touch'] in ('append_uri', 'remove_uri')
                 bump('application_touched_client_inputs')
             cur['outcome'] = st['outcome']
             cur['left'] = st.get('r', 0)
@@ -226,7 +246,24 @@ def execute(scn, want_log=False):
                     box['raised'] = e  # the client broke instead of sending: judged below (no attempt reached any node)
                 except BaseException as e:  # noqa: BLE001  (harness errors / caps raised on the worker thread are re-raised on the main one)
                     box['fatal'] = e
-            if st.get('thread'):
+            unjudged = False
+            if st.get('overlap_next') and gi + 1 < len(scn['steps']) and inflight is None:
+                import threading
+
+                # the slow request runs on a worker thread and parks inside the transport; the main thread goes on with the next step
+                park.update(armed=True, started=threading.Event(), release=threading.Event())
+                t = threading.Thread(target=issue, name='worker-slow')
+                t.start()
+                while t.is_alive() and not park['started'].wait(0.01):
+                    pass
+                if park['started'].is_set():
+                    inflight = (t, box, i)
+                    sim.ev('request_in_flight', i=i)
+                    prevs[cid] = 'overlap'
+                    continue
+                park['armed'] = False  # it never reached a node: an ordinary sequential request after all
+                t.join()
+            elif st.get('thread'):
                 import threading
 
                 t = threading.Thread(target=issue, name=f'worker-{st["thread"]}')
@@ -235,10 +272,26 @@ def execute(scn, want_log=False):
                 bump('request_from_worker_thread')
             else:
                 issue()
+            if inflight is not None:
+                # the slow request of the previous step finishes now, after the one issued later
+                t0, box0, i0 = inflight
+                inflight = None
+                park['release'].set()
+                t0.join(60)
+                if t0.is_alive():
+                    raise core.HarnessError('slow request did not finish')
+                if 'fatal' in box0:
+                    raise box0['fatal']
+                sim.ev('client_done', i=i0, raised=type(box0.get('raised')).__name__ if box0.get('raised') else None, late=True)
+                bump('two_requests_overlapped_and_finished_out_of_order')
+                unjudged = True
             if 'fatal' in box:
                 raise box['fatal']
             raised = box.get('raised')
             sim.ev('client_done', i=i, raised=type(raised).__name__ if raised else None)
+            if unjudged:
+                prevs[cid] = 'overlap'
+                continue
             reqs = [e for e in sim.log[first:] if e['k'] == 'req']
             judged += 1
             want = uris[i % scn['n']]
@@ -266,7 +319,7 @@ def execute(scn, want_log=False):
                 violations.append({'kind': 'no-attempt', 'sig': 'C28/no-attempt', 'detail': {'i': i}})
                 break
             if any(h != want for h in hosts):
-                cause = 'first' if prev == 'start' else ('after-failure' if prev not in ('ok', 'trans_ok') else 'after-success')
+                cause = 'first' if prev == 'start' else 'after-overlap' if prev == 'overlap' else ('after-failure' if prev not in ('ok', 'trans_ok') else 'after-success')
                 within = len(set(hosts)) > 1
                 violations.append(
                     {
@@ -277,6 +330,9 @@ def execute(scn, want_log=False):
                 )
                 break
             prevs[cid] = st['outcome']
+        if inflight is not None:
+            park['release'].set()
+            inflight[0].join(60)
 
     out = {
         'violations': violations,
